@@ -45,6 +45,9 @@ class RaiseSig(Exception):
         self.node = node
 
 
+_MISSING = object()
+
+
 class _GenStop(Exception):
     """Unwinds a generator whose consuming for statement was left (break / return / exception in the loop body)."""
 
@@ -657,7 +660,9 @@ class Interp:
         return self.alloc(HList(segs))
 
     def eval_Set(self, node):
-        return self.alloc(HList([("one", self.eval(e)) for e in node.elts], is_set=True))
+        from . import models as M
+
+        return self.alloc(HList(M.dedupe_set_segs([("one", self.eval(e)) for e in node.elts]), is_set=True))
 
     def eval_Dict(self, node):
         d = HDict()
@@ -678,6 +683,8 @@ class Interp:
         return self.alloc(d)
 
     def eval_Lambda(self, node):
+        # the frame the lambda is written in: its free names are looked up there, wherever it is called from
+        self.__dict__.setdefault("_lambda_home", {})[(id(node), len(self.state.frames) - 1)] = self.frame.fid
         return LambdaV(node, len(self.state.frames) - 1)
 
     def eval_IfExp(self, node):
@@ -1241,6 +1248,10 @@ class Interp:
             if isinstance(o, HList):
                 return self.list_index(v, o, idx, node)
             if isinstance(o, HObj):
+                if self.__dict__.get("_record_kind", {}).get(o.cls) == "namedtuple" and isinstance(idx, Const) and isinstance(idx.value, int):
+                    fields = self._record_fields(o.cls)
+                    if -len(fields) <= idx.value < len(fields):
+                        return o.attrs[fields[idx.value][0]]
                 return Sym(("item", ("ref", v.oid), desc(idx)))
             if isinstance(o, HOpaque):
                 r = M.opaque_getitem(self, v, o, idx, node)
@@ -1425,6 +1436,9 @@ class Interp:
         return None
 
     def dict_load(self, ref, o: HDict, key, node, default=None, log=True):
+        if isinstance(key, (PredV, Sym)) and o.entries and not o.each and not o.sym and set(o.entries) <= {True, False} and (isinstance(key, PredV) or key.hint == "bool"):
+            # a table with the two truth values as keys, looked up with a symbolic Boolean: whichever it is
+            key = Const(bool(self.truth(key)))
         ck = self.dict_key(key)
         if ck is not None and ck[1] in o.entries:
             return o.entries[ck[1]]
@@ -1523,6 +1537,9 @@ class Interp:
                 self.log("dict.set", node, obj=res, key=k, value=v)
             else:
                 v = self.eval(node.elt)
+                if isinstance(v, GenV):
+                    # a generator of the repository as the element: what it yields, collected where the element is made
+                    v = self.alloc(HList(self.segments(v, node)))
                 self.deref(res).segs.append(("one", v))
             return
         gen = node.generators[gi]
@@ -1541,6 +1558,21 @@ class Interp:
         """Iteration segments of an iterable value: [('one', value) | ('each', binder, fam, guard, value)]"""
         from . import models as M
 
+        if isinstance(v, GenV):
+            # a generator of the repository handed to enumerate / list / sorted / a comprehension ...: what it yields is
+            # collected here (a yield inside a loop over a family becomes one entry per member, like an append would)
+            acc = self.alloc(HList())
+
+            def on_yield(value, acc=acc):
+                M.list_method(self, acc, self.deref(acc), "append", [value], {}, node)
+                return Const(None)
+
+            def on_extend(segs, acc=acc):
+                M.list_method(self, acc, self.deref(acc), "extend", [self.alloc(HList(list(segs)))], {}, node)
+
+            on_yield.extend = on_extend
+            self.call_function(v.fi, list(v.args), dict(v.kwargs), node, force_inline=True, on_yield=on_yield)
+            return list(self.deref(acc).segs)
         if isinstance(v, Ref):
             o = self.deref(v)
             if isinstance(o, HList):
@@ -1815,6 +1847,9 @@ class Interp:
         self.err(target, f"unsupported assignment target {type(target).__name__}")
 
     def unpack(self, value, n, node):
+        if isinstance(value, Ref) and isinstance(self.deref(value), HObj) and self.__dict__.get("_record_kind", {}).get(self.deref(value).cls) == "namedtuple":
+            fields = self._record_fields(self.deref(value).cls)
+            value = TupleV(tuple(self.deref(value).attrs[nm] for nm, _ in fields))
         if isinstance(value, TupleV):
             if len(value.items) != n:
                 self.err(node, f"cannot unpack {len(value.items)} values into {n}")
@@ -1907,6 +1942,8 @@ class Interp:
             return M.call_external(self, fv, args, kwargs, node)
         if isinstance(fv, LambdaV):
             return self.call_lambda(fv, args, kwargs, node)
+        if isinstance(fv, Sym) and isinstance(fv.label, tuple) and fv.label[:1] in (("itemgetter",), ("attrgetter",), ("methodcaller",)) and len(args) == 1:
+            return M.call_operator_object(self, fv, args, kwargs, node)
         if isinstance(fv, Sym):
             self.stats["unresolved_calls"] += 1
             self.log("call.unknown", node, func=fv, args=tuple(args), kwargs=dict(kwargs))
@@ -1923,10 +1960,33 @@ class Interp:
             self.err(node, "unsupported expression Yield")
         return h(self.eval(node.value) if node.value is not None else Const(None))
 
+    def eval_YieldFrom(self, node):
+        h = None
+        for fr in reversed(self.state.frames):
+            if fr.func is not None and not fr.is_comp:
+                h = getattr(fr, "on_yield", None)
+                break
+        if h is None:
+            self.err(node, "unsupported expression YieldFrom")
+        segs = self.segments(self.eval(node.value), node)
+        if all(sg[0] == "one" for sg in segs):
+            for sg in segs:
+                h(sg[1])
+            return Const(None)
+        hs = getattr(h, "extend", None)
+        if hs is None:
+            self.err(node, "yield from a sequence of unknown length where each value is consumed in turn")
+        hs(segs)
+        return Const(None)
+
     def call_lambda(self, lv, args, kwargs, node):
         lam = lv.node
-        fr = Frame(self.frame.func, self.frame.module, self.frame.cls, fid=self.state.fresh("fid"),
-                   closure=len(self.state.frames) - 1, is_comp=True)
+        home = len(self.state.frames) - 1
+        hid = self.__dict__.get("_lambda_home", {}).get((id(lam), lv.frame_id))
+        if hid is not None and 0 <= lv.frame_id < len(self.state.frames) and self.state.frames[lv.frame_id].fid == hid:
+            home = lv.frame_id  # called from somewhere below the function that wrote it (a callback handed to a helper)
+        hf = self.state.frames[home]
+        fr = Frame(hf.func, hf.module, hf.cls, fid=self.state.fresh("fid"), closure=home, is_comp=True)
         self.bind_params(lam.args, args, kwargs, fr, node, lam)
         self.state.frames.append(fr)
         try:
@@ -2072,9 +2132,66 @@ class Interp:
         self.log("new", node, cls=cls, obj=ref, args=tuple(args), kwargs=dict(kwargs))
         if init is not None:
             self.call_function(init, [ref] + list(args), kwargs, node)
+        elif self._record_fields(cls) is not None:
+            self._init_record(cls, ref, args, kwargs, node)
         else:
             ext = M.external_base_init(self, cls, ref, args, kwargs, node)
         return ref
+
+    def _record_fields(self, cls):
+        """Fields of a @dataclass / typing.NamedTuple class of the repository, in declaration order: [(name, default node
+        or None)]; None for any other class."""
+        cache = self.__dict__.setdefault("_record_cache", {})
+        if cls in cache:
+            return cache[cls]
+        ci = self.prog.classes.get(cls)
+        out = None
+        if ci is not None:
+            is_dc = any(ast.unparse(d.func if isinstance(d, ast.Call) else d).rsplit(".", 1)[-1] == "dataclass" for d in ci.node.decorator_list)
+            is_nt = any(str(b).rsplit(".", 1)[-1] == "NamedTuple" for b in getattr(ci, "bases", ()))
+            node_ = getattr(ci, "node", None)
+            if (is_dc or is_nt) and node_ is not None:
+                out = []
+                for st in node_.body:
+                    if isinstance(st, ast.AnnAssign) and isinstance(st.target, ast.Name) and "ClassVar" not in ast.unparse(st.annotation):
+                        out.append((st.target.id, st.value))
+                ci_kind = "namedtuple" if is_nt else "dataclass"
+                self.__dict__.setdefault("_record_kind", {})[cls] = ci_kind
+        cache[cls] = out
+        return out
+
+    def _init_record(self, cls, ref, args, kwargs, node):
+        fields = self._record_fields(cls)
+        o = self.deref(ref)
+        ci = self.prog.classes[cls]
+        if len(args) > len(fields):
+            self.err(node, f"{cls}: more arguments than fields")
+        for i, (name, dflt) in enumerate(fields):
+            if i < len(args):
+                o.attrs[name] = args[i]
+            elif name in kwargs:
+                o.attrs[name] = kwargs[name]
+            elif dflt is not None:
+                self.state.frames.append(Frame(None, ci.module, ci.qualname, fid=self.state.fresh("fid")))
+                try:
+                    if isinstance(dflt, ast.Call) and ast.unparse(dflt.func).rsplit(".", 1)[-1] == "field":
+                        fac = next((k.value for k in dflt.keywords if k.arg == "default_factory"), None)
+                        dv = next((k.value for k in dflt.keywords if k.arg == "default"), None)
+                        if fac is not None:
+                            o.attrs[name] = self.call(self.eval(fac), [], {}, node)
+                        elif dv is not None:
+                            o.attrs[name] = self.eval(dv)
+                        else:
+                            self.err(node, f"{cls}.{name}: field() without a default")
+                    else:
+                        o.attrs[name] = self.eval(dflt)
+                finally:
+                    self.state.frames.pop()
+            else:
+                self.err(node, f"{cls}: field {name} not given")
+        post = self.prog.lookup_method(cls, "__post_init__")
+        if post is not None:
+            self.call_function(post, [ref], {}, node)
 
     # ------------------------------------------------------------------ statements
     def exec_block(self, stmts):
@@ -2468,6 +2585,76 @@ class Interp:
         snap = loop_back_snapshot(self, node, entry)
         self.log("while.back", node, id=loop_id, snap=snap)
         raise PathEnd(("loopback", loop_id, snap))
+
+    def exec_Match(self, node):
+        """match/case for the pattern kinds a clean-up uses: literals, None/True/False, captures and wildcards, `|`,
+        sequences of fixed length, and class patterns over repository records (dataclass / NamedTuple) and tuples."""
+        subject = self.eval(node.subject)
+        for case in node.cases:
+            binds = {}
+            if self._match(case.pattern, subject, binds, node):
+                saved = {k: self.frame.env.get(k, _MISSING) for k in binds}
+                self.frame.env.update(binds)
+                if case.guard is None or self.truth(self.eval(case.guard)):
+                    self.exec_block(case.body)
+                    return
+                for k, v in saved.items():
+                    if v is _MISSING:
+                        self.frame.env.pop(k, None)
+                    else:
+                        self.frame.env[k] = v
+
+    def _match(self, pat, v, binds, node) -> bool:
+        if isinstance(pat, ast.MatchAs):
+            if pat.pattern is not None and not self._match(pat.pattern, v, binds, node):
+                return False
+            if pat.name is not None:
+                binds[pat.name] = v
+            return True
+        if isinstance(pat, ast.MatchOr):
+            for alt in pat.patterns:
+                b2 = {}
+                if self._match(alt, v, b2, node):
+                    binds.update(b2)
+                    return True
+            return False
+        if isinstance(pat, ast.MatchValue):
+            return bool(self.truth(self.compare("Eq", v, self.eval(pat.value), node)))
+        if isinstance(pat, ast.MatchSingleton):
+            if pat.value is None:
+                return bool(self.truth(self.compare("Is", v, Const(None), node)))
+            # True / False: identity with the constant, i.e. the subject is that Boolean
+            t = self.truth(v)
+            return t if pat.value is True else (not t)
+        if isinstance(pat, ast.MatchSequence):
+            items = None
+            if isinstance(v, TupleV):
+                items = list(v.items)
+            elif isinstance(v, Ref) and isinstance(self.deref(v), HList) and self.deref(v).concrete() and not self.deref(v).is_set:
+                items = self.deref(v).values()
+            if items is None:
+                self.err(node, "sequence pattern on a value that is not a concrete sequence")
+            if any(isinstance(p_, ast.MatchStar) for p_ in pat.patterns):
+                self.err(node, "starred sequence pattern")
+            return len(items) == len(pat.patterns) and all(self._match(p_, x, binds, node) for p_, x in zip(pat.patterns, items))
+        if isinstance(pat, ast.MatchClass):
+            cv = self.eval(pat.cls)
+            o = self.deref(v) if isinstance(v, Ref) else None
+            if not (isinstance(cv, ClassV) and isinstance(o, HObj)):
+                self.err(node, f"class pattern {ast.unparse(pat.cls)} on {v!r}")
+            if cv.qualname not in self.prog.mro(o.cls):
+                return False
+            fields = self._record_fields(cv.qualname) or []
+            if len(pat.patterns) > len(fields):
+                self.err(node, "more positional sub-patterns than fields")
+            for (name, _), sub in zip(fields, pat.patterns):
+                if not self._match(sub, o.attrs.get(name, Const(None)), binds, node):
+                    return False
+            for name, sub in zip(pat.kwd_attrs, pat.kwd_patterns):
+                if not self._match(sub, self.getattr(v, name, node), binds, node):
+                    return False
+            return True
+        self.err(node, f"unsupported pattern {type(pat).__name__}")
 
     def exec_Break(self, node):
         raise BreakSig()
